@@ -23,6 +23,14 @@
 // its scripted cuts are used up and the last body ended at offset 0 - for ever, so a client
 // that does not give up is seen retrying until the virtual hour is over.
 //
+// A body may open with one complete data-less event that carries the SSE `retry:` field (cut
+// field "rt": bare = the field alone, named = `event: close` + retry as the SDK's server writes
+// it when it closes a stream on purpose, idd = the same with the id of the position the body
+// starts after, i.e. the id the client resumed with).  It is not an element of the stream and
+// brings no new id across; a body cut at offset 0 that opens with one is "200 with retry only".
+// The stuck server repeats it with every body.  Scenarios flagged "dflt" leave
+// StreamableClientTransport.MaxRetries unset (the documented default, 5).
+//
 // Recorded per scenario (VERIF_OUT) for the TLA+ monitor StreamCliMon: the bodies served (start,
 // cut, which ids had been transmitted completely), every reconnect (Last-Event-ID, answers),
 // the messages returned by the connection's Read, the notifications the session's handler saw,
@@ -80,6 +88,7 @@ type c09Cut struct {
 	Knd string `json:"knd"`
 	Al  int    `json:"al"`
 	Off *int   `json:"off,omitempty"` // explicit byte offset inside the body (byte level, replays)
+	Rt  string `json:"rt,omitempty"`  // the `retry:` event the body opens with: none (default) | bare | named | idd
 }
 
 type c09Case struct {
@@ -89,6 +98,7 @@ type c09Case struct {
 	Cuts  []c09Cut   `json:"cuts"`
 	Rc    [][]string `json:"rc"`
 	Lay   string     `json:"lay,omitempty"` // layout key (stream id, paddings); defaults to ID
+	Dflt  bool       `json:"dflt,omitempty"` // leave MaxRetries unset: the documented default (cfg.mr must be 5)
 }
 
 type c09BodyRec struct {
@@ -98,9 +108,10 @@ type c09BodyRec struct {
 	Cls    string `json:"cls"`
 	Knd    string `json:"knd"`
 	Al     int    `json:"al"`
+	Rt     string `json:"rt"`
 	C      int    `json:"c"`
 	D      int    `json:"d"`
-	Off    int    `json:"off"`
+	Off    int    `json:"off"` // offset of the cut inside the stream's elements (the opening retry event not counted)
 	Len    int    `json:"len"`
 }
 
@@ -247,6 +258,20 @@ func (s *c09Stream) bytesOf(e c09Elem) []byte {
 	}
 	fmt.Fprintf(&b, "data: %s\n\n", ev.Data)
 	return b.Bytes()
+}
+
+// retryHead is the wire form of the data-less event carrying the SSE retry field that a body
+// may open with (ms: the delay the server asks for).
+func (s *c09Stream) retryHead(rt string, from int, ms int) []byte {
+	switch rt {
+	case "bare":
+		return []byte(fmt.Sprintf("retry: %d\n\n", ms))
+	case "named": // mcp.writeEvent(Event{Name: "close", Retry: ..})
+		return []byte(fmt.Sprintf("event: close\nretry: %d\ndata: \n\n", ms))
+	case "idd":
+		return []byte(fmt.Sprintf("event: close\nid: %s\nretry: %d\ndata: \n\n", s.id(from), ms))
+	}
+	return nil
 }
 
 func (s *c09Stream) elems(from int, primed bool) []c09Elem {
@@ -413,6 +438,7 @@ type c09Rec struct {
 	gone    bool // the server has answered 404 once
 	lastC     int    // cursor of the last id'd event transmitted completely, over all bodies so far
 	lastEmpty string // termination of the last body if it ended at offset 0 ("" otherwise)
+	lastRt    string // the retry event the last body opened with
 }
 
 func (r *c09Rec) us() int64 { return int64(time.Since(r.t0) / time.Microsecond) }
@@ -451,7 +477,20 @@ func (r *c09Rec) serveBody(req *http.Request, from int) *http.Response {
 		full = append(full, st.bytesOf(e)...)
 	}
 	ended := st.cfg.Kind == "post" && from >= st.cfg.M
-	rec := c09BodyRec{From: from, Primed: primed, Cls: "none", Knd: "none", Al: c09None, Len: len(full)}
+	rec := c09BodyRec{From: from, Primed: primed, Cls: "none", Knd: "none", Al: c09None, Rt: "none", Len: len(full)}
+	// a stuck server: once the script is used up, if the last body ended at offset 0 so does every later one
+	stuck := i >= len(r.cs.Cuts) && !ended && st.cfg.Tail == "stuck" && r.lastEmpty != ""
+	switch {
+	case i < len(r.cs.Cuts) && r.cs.Cuts[i].Rt != "" && !ended:
+		rec.Rt = r.cs.Cuts[i].Rt
+	case stuck:
+		rec.Rt = r.lastRt // a stuck server says the same thing every time
+	}
+	if rec.Rt == "idd" && st.cfg.Ids != "all" {
+		r.obs.Div = true
+		rec.Rt = "named"
+	}
+	head := st.retryHead(rec.Rt, from, 200+r.rng.IntN(1800))
 	body := &c09Body{ctx: req.Context(), shut: make(chan struct{}), chunk: 1 + r.rng.IntN(64), glue: r.rng.IntN(2) == 0}
 	if r.rng.IntN(3) == 0 {
 		body.chunk = 4096
@@ -472,27 +511,30 @@ func (r *c09Rec) serveBody(req *http.Request, from int) *http.Response {
 		}
 		n, rec.Cls, rec.Al = st.locate(es, off)
 		rec.N, rec.Knd, rec.Off = n, cut.Knd, off
-		body.data, body.term = full[:off], cut.Knd
+		body.data, body.term = append(head, full[:off]...), cut.Knd
 	case ended:
 		// nothing left to send on a POST stream: the server closes
 		rec.N, rec.Cls, rec.Knd, rec.Off = n, "bnd", "eof", len(full)
 		body.data, body.term = full, "eof"
-	case st.cfg.Tail == "stuck" && r.lastEmpty != "":
+	case stuck:
 		// a stuck server: the last body ended at offset 0, so does this one (and every later one)
 		n = 0
 		rec.N, rec.Cls, rec.Knd, rec.Off = 0, "bnd", r.lastEmpty, 0
-		body.data, body.term = nil, r.lastEmpty
+		body.data, body.term = head, r.lastEmpty
 	case st.cfg.Kind == "post":
 		rec.Off = len(full)
-		body.data, body.term = full, "eof"
+		body.data, body.term = append(head, full...), "eof"
 	default:
 		rec.Off = len(full)
-		body.data, body.term = full, "hold"
+		body.data, body.term = append(head, full...), "hold"
 	}
 	// ground truth: which ids have been transmitted completely
 	c := r.lastC
 	if i == 0 {
 		c = c09None
+	}
+	if rec.Rt == "idd" && from > c {
+		c = from // the opening event repeats the id of the position the body starts after
 	}
 	for _, e := range es[:n] {
 		if e.cur > c {
@@ -511,7 +553,7 @@ func (r *c09Rec) serveBody(req *http.Request, from int) *http.Response {
 	if touched > 0 && es[touched-1].msg > r.wire {
 		r.wire = es[touched-1].msg
 	}
-	r.lastC, r.lastEmpty = c, ""
+	r.lastC, r.lastEmpty, r.lastRt = c, "", rec.Rt
 	if rec.Knd != "none" && rec.Cls == "bnd" && rec.N == 0 {
 		r.lastEmpty = rec.Knd
 	}
@@ -784,6 +826,12 @@ func c09Scenario(t *testing.T, cs c09Case, seed uint64) (o *c09Obs) {
 		mr := cs.Cfg.Mr
 		if mr == 0 {
 			mr = -1 // "To disable retries, use a negative number."
+		}
+		if cs.Dflt {
+			if cs.Cfg.Mr != 5 {
+				panic("c09: dflt scenario with mr != 5")
+			}
+			mr = 0 // "It defaults to 5."
 		}
 		tr := &StreamableClientTransport{Endpoint: "http://c09.invalid/mcp", HTTPClient: &http.Client{Transport: r},
 			MaxRetries: mr, DisableStandaloneSSE: cs.Cfg.Kind != "sa"}
